@@ -29,9 +29,16 @@ def bit (n k : Nat) : Bool := (n / k) % 2 == 1
 def opOf? : Term → Option Op
   | .list [.atom "ins", s, f, i, pid, nh, lp, cl, rts, asl, org, fl] => do
       let fl ← asNat? fl
-      if fl ≥ 8 then none
+      if fl ≥ 128 then none
       pure (.ins (← asNat? s) ⟨← asNat? f, ← asNat? i⟩ (← asNat? pid) (← asNat? nh)
         ⟨← asNat? lp, ← asNat? cl, ← natsOf? rts, ← asNat? asl, ← asNat? org, bit fl 1, bit fl 2, bit fl 4⟩)
+  | .list [.atom "insl", s, f, i, pid, nh, lp, cl, rts, asl, org, fl] => do
+      let fl ← asNat? fl
+      if fl ≥ 128 then none
+      pure (.insl (← asNat? s) ⟨← asNat? f, ← asNat? i⟩ (← asNat? pid) (← asNat? nh)
+        ⟨← asNat? lp, ← asNat? cl, ← natsOf? rts, ← asNat? asl, ← asNat? org, bit fl 1, bit fl 2, bit fl 4⟩)
+  | .list [.atom "gdown", k, m] => do pure (.gdown (← asNat? k) (← asNat? m))
+  | .list [.atom "purgef", k, f] => do pure (.purgef (← asNat? k) (← asNat? f))
   | .list [.atom "rm", s, f, i, pid] => do
       pure (.rm (← asNat? s) ⟨← asNat? f, ← asNat? i⟩ (← asNat? pid))
   | .list [.atom "down", k] => (asNat? k).map .down
@@ -64,6 +71,24 @@ def caseOf? : Term → Option (Cfg × List Op × Bool)
       let ops ← os.mapM opOf?
       let fd ← asBool? fd
       if cfg.wf && ops.all (Op.wf cfg) then pure (cfg, ops, fd) else none
+  | _ => none
+
+/-- A wire case: one real eBGP session on loopback (router id `rid`); `(ann id nh)` / `(wd id)` are UPDATE
+    messages received on it for IPv4 prefix `id`, `close` ends the session (no graceful restart), after
+    which the peer connects again.  What the model sees of it: -/
+def wireOpOf? : Term → Option Op
+  | .list [.atom "ann", i, nh] => do
+      pure (.ins 0 ⟨0, ← asNat? i⟩ 0 (← asNat? nh) ⟨100, 0, [], 1, 0, false, false, false⟩)
+  | .list [.atom "wd", i] => do pure (.rm 0 ⟨0, ← asNat? i⟩ 0)
+  | .atom "close" => some (.down 0)
+  | _ => none
+
+def wireOf? : Term → Option (Cfg × List Op)
+  | .list [.atom "wire", .list [.atom "rid", r], .list (.atom "ops" :: os)] => do
+      let cfg : Cfg := ⟨[(← asNat? r, 0)], [], []⟩
+      let ops ← os.mapM wireOpOf?
+      if cfg.wf && ops.all (Op.wf cfg) && (← asNat? r) != 0 && ops.all (fun o => match o with
+          | .ins _ _ _ nh _ => nh < 100 | _ => true) then pure (cfg, ops) else none
   | _ => none
 
 def svcReqOf? : Term → Option (Option (Bool × Addr))
